@@ -117,3 +117,80 @@ def lossy_store_sites(fnode, params, accept_float=False):
             continue
         out.append((buf, own, who, d, node, widened(d.value)))
     return out
+
+
+FLOAT_MARKS = ("float", "np.float32", "np.float64", "np.double", "np.floating",
+               "np.float_", "np.inexact", "np.complex128", "np.complex64",
+               "complex")
+
+
+def quotient_store_sites(fnode, params):
+    """Item stores whose value is a *true quotient* (contains ``/``) into a
+    buffer that is a copy of an operand: a quotient is floating whatever the
+    operands are, so the buffer needs a floating type - a common type of
+    integer operands is an integer type.  Returns (buf, own, definition,
+    store, floating) with ``floating`` true when the buffer's definition
+    promotes with a floating type (a floating dtype or float constant among
+    the arguments of np.result_type / np.promote_types, or astype(float))."""
+    params = set(params)
+    a = fnode.args
+    fscalars = {x.arg for x in a.posonlyargs + a.args + a.kwonlyargs
+                if x.annotation is not None and "float" in src(x.annotation)}
+    defs: Dict[str, List[ast.Assign]] = {}
+    for n in walk_no_nested(fnode):
+        if isinstance(n, ast.Assign):
+            for t in n.targets:
+                if isinstance(t, ast.Name):
+                    defs.setdefault(t.id, []).append(n)
+
+    def origin(e):
+        if isinstance(e, ast.IfExp):
+            o1, o2 = origin(e.body), origin(e.orelse)
+            return o1 or o2
+        if isinstance(e, ast.Name) and e.id in params:
+            return e.id
+        if isinstance(e, ast.Call):
+            f = e.func
+            if isinstance(f, ast.Attribute) and f.attr in ("copy", "astype"):
+                return origin(f.value)
+            if src(f) in ("np.array", "np.copy", "np.asarray") and e.args:
+                return origin(e.args[0])
+        return None
+
+    def floating(e):
+        for c in ast.walk(e):
+            if not isinstance(c, ast.Call):
+                continue
+            last = src(c.func).split(".")[-1]
+            cands = []
+            if last in ("result_type", "promote_types", "common_type"):
+                cands = list(c.args)
+            elif last == "astype" and c.args and not isinstance(
+                    c.args[0], ast.Call):
+                cands = [c.args[0]]
+            for x in cands:
+                if src(x) in FLOAT_MARKS or (
+                        isinstance(x, ast.Constant)
+                        and isinstance(x.value, (float, complex))) or (
+                        isinstance(x, ast.Name) and x.id in fscalars):
+                    return True
+        return False
+    out = []
+    for n in walk_no_nested(fnode):
+        if not (isinstance(n, ast.Assign) and len(n.targets) == 1 and
+                isinstance(n.targets[0], ast.Subscript) and
+                isinstance(n.targets[0].value, ast.Name)):
+            continue
+        if not any(isinstance(x, ast.BinOp) and isinstance(x.op, ast.Div)
+                   for x in ast.walk(n.value)):
+            continue
+        buf = n.targets[0].value.id
+        dl = sorted((d for d in defs.get(buf, []) if d.lineno < n.lineno),
+                    key=lambda d: d.lineno)
+        if not dl:
+            continue
+        own = origin(dl[-1].value)
+        if own is None:
+            continue
+        out.append((buf, own, dl[-1], n, floating(dl[-1].value)))
+    return out
